@@ -295,6 +295,9 @@ use crate::render::Feat;
 pub enum C13Case {
     /// part A: a sequence of writes; the worker taps the byte stream and compares with node:crypto
     Digest { ops: Vec<Value> },
+    /// part A, unique decodability: one string `prefix ++ bytes-the-writer-produces-for-tail` against the writes
+    /// [prefix, tail...]: different inputs, so different digests, whatever the encoding is
+    Confusable { prefix: String, tail: Vec<Value> },
     /// part B(i): same denotation, rewrites that must not change hash256 / hash
     Equal(PairOfPrograms),
     /// part B(ii): two denotations one edit apart; if some value separates them, the digests must differ
@@ -458,6 +461,48 @@ impl C13 {
     }
 }
 
+impl C13 {
+    fn check_confusable(&self, prefix: &str, tail: &[Value], ctx: &mut Ctx, out: &mut Outcome) -> Result<(), String> {
+        let resp = node_case(ctx, None, vec![json!({"q":"confusable","prefix":prefix,"tail":tail})])?;
+        let r = &resp["results"][0];
+        out.evals += 1;
+        if let Some(t) = r.get("threw") {
+            out.mismatch(ctx, "digest_threw", format!("Hash256Writer threw: {}", t), json!({"prefix": prefix, "tail": tail}));
+            return Ok(());
+        }
+        if r.get("skipped").is_some() {
+            out.label("confusable_skipped");
+            return Ok(());
+        }
+        out.label("confusable_judged");
+        if r["same"] == json!(true) {
+            out.mismatch(
+                ctx,
+                "digest_encoding_not_uniquely_decodable",
+                format!(
+                    "one string of {} bytes and the writes [string of {} bytes, then {} more writes] get the same digest {}: the encoding of what is written is not uniquely decodable (two different structures, one digest)",
+                    r["singleLength"],
+                    prefix.len(),
+                    tail.len(),
+                    r["digest"]
+                ),
+                json!({"prefix": prefix, "tail": tail, "single_string_bytes": r["singleLength"], "tail_bytes": r["tailBytes"]}),
+            );
+        }
+        Ok(())
+    }
+}
+
+/// tail of 2-5 short ASCII strings whose encodings (by the documented format: 5 bytes of header each) add up to `total` bytes
+fn confusable_tail(total: usize) -> Vec<Value> {
+    let mut r = 2;
+    while total > r * (5 + 120) {
+        r += 1;
+    }
+    let payload = total.saturating_sub(5 * r);
+    (0..r).map(|i| json!({"o":"str","v":"q".repeat(payload / r + if i < payload % r { 1 } else { 0 })})).collect()
+}
+
 impl Check for C13 {
     fn id(&self) -> &'static str {
         "C13"
@@ -518,6 +563,20 @@ impl Check for C13 {
                 );
                 out.sample = Some(serde_json::to_value(C13Case::Digest { ops }).unwrap());
                 return vec![out];
+            }
+        }
+        // unique decodability: tails whose encodings take 10..=700 bytes behind prefixes of 0..=9 bytes
+        for total in 10..=700usize {
+            for plen in [0usize, 1, 2, 3, 5, 9] {
+                let prefix = "p".repeat(plen);
+                let tail = confusable_tail(total);
+                if let Err(e) = self.check_confusable(&prefix, &tail, ctx, &mut out) {
+                    return vec![Outcome::infra(e)];
+                }
+                if out.violation.is_some() {
+                    out.sample = Some(serde_json::to_value(C13Case::Confusable { prefix, tail }).unwrap());
+                    return vec![out];
+                }
             }
         }
         out.nontrivial = Some(fp(&"digest_sweep_0_300"));
@@ -636,6 +695,47 @@ impl Check for C13 {
                         d2 = D::obj(vec![("id", b, false), ("n", D::Num, false)]);
                     }
                 }
+                // ... or two template literal types one of which has, as literal text, what the other has as syntax:
+                // a placeholder against its own spelling (`${string}` as text), with the characters that would escape it
+                if s.chance(1, 10) {
+                    use crate::den::TplPart;
+                    let (ph, name) = match s.below(3) {
+                        0 => (TplPart::Str, "string"),
+                        1 => (TplPart::Num, "number"),
+                        _ => (TplPart::Bool, "boolean"),
+                    };
+                    // (the text before it is chosen independently on the two sides: an escape character in front of the
+                    // syntax is the classic way for it to read like the text)
+                    const LEADS: [&str; 6] = ["\\", "", "`", "a", "\\\\", "$"];
+                    let lead = *s.pick(&LEADS);
+                    let lead_text = if s.chance(1, 2) { lead } else { *s.pick(&LEADS) };
+                    let tail: Vec<TplPart> = match s.below(3) {
+                        0 => vec![],
+                        1 => vec![TplPart::Num],
+                        _ => vec![TplPart::Lit("-".into()), TplPart::Str],
+                    };
+                    let mut as_syntax = vec![];
+                    if !lead.is_empty() {
+                        as_syntax.push(TplPart::Lit(lead.to_string()));
+                    }
+                    as_syntax.push(ph);
+                    as_syntax.extend(tail.clone());
+                    // the second type needs a placeholder to be a template at all
+                    let mut as_text = vec![TplPart::Lit(format!("{}${{{}}}", lead_text, name))];
+                    as_text.extend(tail);
+                    if !as_text.iter().any(|p| !matches!(p, TplPart::Lit(_))) {
+                        as_text.push(TplPart::Str);
+                        as_syntax.push(TplPart::Str);
+                    }
+                    let (a, b) = (D::Tpl(as_syntax), D::Tpl(as_text));
+                    if s.chance(1, 2) {
+                        d1 = a;
+                        d2 = b;
+                    } else {
+                        d1 = D::obj(vec![("id", a, false)]);
+                        d2 = D::obj(vec![("id", b, false)]);
+                    }
+                }
                 // utility spellings matter here: Partial<...>, optional mapped members and Record are compiled to
                 // wrappers of their own (optional-field, index signature) whose presence must show in the digest
                 let rc = RenderCfg { feats: vec![Feat::Utility], eagerness: 4 };
@@ -668,6 +768,12 @@ impl Check for C13 {
                 if approx > 64 {
                     out.nontrivial = Some(fp(&serde_json::to_string(&ops).unwrap()));
                     out.sample = Some(json!({"digest_ops": ops.iter().take(4).collect::<Vec<_>>(), "approx_bytes": approx}));
+                }
+            }
+            C13Case::Confusable { prefix, tail } => {
+                out.label("part:digest");
+                if let Err(e) = self.check_confusable(&prefix, &tail, ctx, &mut out) {
+                    return Outcome::infra(e);
                 }
             }
             C13Case::Equal(pp) => {
